@@ -30,7 +30,7 @@ import (
 var c04Pool = []string{"ab", "a b", "xab", "ab x", " ab", "a/b", "x/ab", "abab", "b", "aXb", "ab", "a  b y"}
 
 // empty, plain, negation-only, two-term, two-term with the second match nested inside the first
-var c04Queries = []string{"", "ab", "!x", "a b", "ab b"}
+var c04Queries = []string{"", "ab", "!x", "a b", "ab x"}
 
 const (
 	c04QEmpty = 0
@@ -115,8 +115,9 @@ func c04RefMatch(q int, line string) bool {
 	case c04QNeg:
 		return !strings.Contains(l, "x")
 	case c04QNest:
+		// on "aXb" the match of the second term ([1,2)) lies strictly inside the match of the first ([0,3))
 		i := strings.IndexByte(l, 'a')
-		return i >= 0 && strings.IndexByte(l[i+1:], 'b') >= 0
+		return i >= 0 && strings.IndexByte(l[i+1:], 'b') >= 0 && strings.Contains(l, "x")
 	default:
 		return strings.Contains(l, "a") && strings.Contains(l, "b")
 	}
